@@ -462,6 +462,73 @@ def check_csv_gap(acc, prop, rng):
         res = sizer(bw.ts('2021-03-03 21:00:00'), dict(w))     # first real price: must size
         if res['EQ:LATE']['quantity'] == 0:
             raise Violation(prop, 'csv-gap/no-size-after-gap', 'no quantity once prices exist: %s' % (res,), {})
+        # the same sizer / handler serves the next run of a parameter sweep, which starts inside the gap again: what it
+        # answered for a later instant is not a price for the earlier one
+        for when in ('2021-03-02 14:30:00', '2021-03-01 21:00:00'):
+            try:
+                res = sizer(bw.ts(when), dict(w))
+            except ValueError:
+                acc.count('%s:rejections/nan_price_from_csv_after_later_use' % prop)
+                continue
+            raise Violation(prop, 'nan-price-accepted/csv-gap-after-later-use', 'sizing at %s, while EQ:LATE has only blank prices so '
+                            'far (the handler had served a later instant before), returned %s instead of raising' % (when, res), {})
+    finally:
+        shutil.rmtree(d, ignore_errors=True)
+
+
+def check_csv_partition(acc, prop, rng):
+    """Two real CSV sources over ONE directory, each restricted to its own list of symbols (a computed partition, one side
+    of which may be empty): an asset that was given to no source has no price - sizing it must be rejected -, and every
+    other asset is sized at the price of the source it was given to."""
+    import os, shutil, tempfile
+    from qsmon import datawl
+    from qstrader.data.daily_bar_csv import CSVDailyBarDataSource
+    from qstrader.data.backtest_data_handler import BacktestDataHandler
+    from qstrader.broker.simulated_broker import SimulatedBroker
+    from qstrader.exchange.simulated_exchange import SimulatedExchange
+    from qstrader.portcon.order_sizer.dollar_weighted import DollarWeightedCashBufferedOrderSizer
+    from qstrader.portcon.order_sizer.long_short import LongShortLeveragedOrderSizer
+    d = tempfile.mkdtemp(prefix='qsmon-sizer-')
+    try:
+        days = [1, 2, 3, 4, 5, 8]
+        for k, sym in enumerate(('AA', 'BB', 'CC')):
+            rows = [{'date': '2021-03-%02d' % day, 'open': 20.0 + 7 * k + i, 'close': 20.5 + 7 * k + i, 'adj': (20.5 + 7 * k + i) / 2.0}
+                    for i, day in enumerate(days)]
+            datawl.write_csv(os.path.join(d, sym + '.csv'), rows, list(range(len(rows))))
+        adjusted_side = rng.choice([[], [], ['BB']])            # the symbols that need adjusted prices: often none
+        raw_side = [s_ for s_ in ('AA', 'BB') if s_ not in adjusted_side]       # CC is given to neither
+        sources = [CSVDailyBarDataSource(d, None, csv_symbols=list(adjusted_side), adjust_prices=True),
+                   CSVDailyBarDataSource(d, None, csv_symbols=tuple(raw_side) if rng.random() < 0.5 else list(raw_side), adjust_prices=False)]
+        handler = BacktestDataHandler(None, data_sources=sources)
+        t0 = bw.ts('2021-03-01 09:00:00')
+        broker = SimulatedBroker(t0, SimulatedExchange(t0), handler, initial_funds=1e6)
+        broker.create_portfolio('P')
+        broker.subscribe_funds_to_portfolio('P', 1e6)
+        if prop == 'C10':
+            sizer = DollarWeightedCashBufferedOrderSizer(broker, 'P', handler, cash_buffer_percentage=0.0)
+            sign = 1.0
+        else:
+            sizer = LongShortLeveragedOrderSizer(broker, 'P', handler, gross_leverage=1.0)
+            sign = -1.0
+        i = rng.choice([1, 2, 3])
+        when = bw.ts('2021-03-%02d 21:00:00' % days[i])
+        try:
+            res = sizer(when, {'EQ:AA': 0.5, 'EQ:CC': sign * 0.5})
+        except ValueError:
+            acc.count('%s:rejections/asset_given_to_no_source' % prop)
+        else:
+            raise Violation(prop, 'nan-price-accepted/asset-given-to-no-source', 'two CSV sources over one directory restricted to %s '
+                            'and %s: EQ:CC was given to neither, sizing it at %s returned %s instead of raising'
+                            % (adjusted_side, raw_side, when, res), {})
+        res = sizer(when, {'EQ:AA': 0.5, 'EQ:BB': sign * 0.5})
+        price = {'EQ:AA': 20.5 + i, 'EQ:BB': (27.5 + i) / (2.0 if 'BB' in adjusted_side else 1.0)}
+        for a, x in (('EQ:AA', 0.5), ('EQ:BB', sign * 0.5)):
+            want = int(abs(x) * 1e6 / price[a]) * (1 if x > 0 else -1)
+            if res[a]['quantity'] != want:
+                raise Violation(prop, 'csv-partition/quantity', 'two CSV sources over one directory restricted to %s (adjusted) and %s '
+                                '(raw): %s sized at %s gives %s, the price of the source it was given to (%r) gives %d'
+                                % (adjusted_side, raw_side, a, when, res[a], price[a], want), {})
+        acc.count('%s:csv_partition_calls' % prop)
     finally:
         shutil.rmtree(d, ignore_errors=True)
 
@@ -637,6 +704,8 @@ def shard(spec, acc, prop):
                 case['wired_invalid'] = rng.choice([-0.01, 1.01, 2.0]) if long_only else rng.choice([0.0, 0, -1.0, -0.001])
         if i % 400 == 11:
             core.guarded(prop, acc, {'kind': 'csv-gap'}, check_csv_gap, acc, prop, rng)
+        if i % 300 == 17:
+            core.guarded(prop, acc, {'kind': 'csv-partition'}, check_csv_partition, acc, prop, rng)
         if i % 200 == 5:
             core.guarded(prop, acc, {'kind': 'csv-instants'}, check_csv_instants, acc, prop, rng)
         run_case(case, acc, prop)
